@@ -1002,6 +1002,30 @@ func (f *vfFake) sendRaw(b []byte) error {
 	return err
 }
 
+func (f *vfFake) inAlive() bool {
+	f.mu.Lock()
+	s := f.in
+	f.mu.Unlock()
+	if s == nil {
+		return false
+	}
+	s.out.mu.Lock()
+	defer s.out.mu.Unlock()
+	return !s.out.closed && !s.out.reset
+}
+
+func (f *vfFake) outAlive() bool {
+	f.mu.Lock()
+	s := f.out
+	f.mu.Unlock()
+	if s == nil {
+		return false
+	}
+	s.in.mu.Lock()
+	defer s.in.mu.Unlock()
+	return !s.in.reset && !s.in.closed
+}
+
 // streamStates summarises our view of both streams (part of the canonical state).
 func (f *vfFake) streamStates() string {
 	f.mu.Lock()
